@@ -36,11 +36,15 @@ type Event struct {
 	End   bool     `json:"end"`
 	N     int      `json:"n"`    // job instance
 	Ents  [][3]int `json:"ents"` // [id, content, deleted]
+	// jbatch in pipeline mode: an entity the sink refuses (nil reference, fresh id PoisonID) is inserted at this index
+	Poison   *int `json:"poison,omitempty"`
+	PoisonID int  `json:"poison_id,omitempty"`
 }
 
 type Case struct {
 	LeaseMs  int     `json:"lease_ms"`
 	Pipeline bool    `json:"pipeline"` // job events go through the real FullSyncPipeline.sync where a run is in progress
+	OnError  string  `json:"on_error"` // the job trigger's onError JSON for pipeline runs ("" = no error handler)
 	Events   []Event `json:"events"`
 }
 
@@ -365,7 +369,7 @@ func runOnce(c Case, dir string) (obs Obs, taint bool) {
 				if c.Pipeline {
 					// an earlier unfinished run of n stays blocked in its source: an abandoned job
 					npipes++
-					p, err := jobs.VerifC09StartPipeline(fmt.Sprintf("verif-c09-%d-%d", ev.N, npipes), sinkOf(ev.N), store, dsm)
+					p, err := jobs.VerifC09StartPipeline(fmt.Sprintf("verif-c09-%d-%d", ev.N, npipes), sinkOf(ev.N), store, dsm, c.OnError)
 					pipes[ev.N] = p
 					allPipes = append(allPipes, p)
 					if err != nil {
@@ -377,6 +381,18 @@ func runOnce(c Case, dir string) (obs Obs, taint bool) {
 			case "jbatch":
 				ents, err := parse(ev.Ents)
 				if err == nil {
+					if ev.Poison != nil {
+						pe, perr := parse([][3]int{{ev.PoisonID, 1, 0}})
+						if perr != nil || len(pe) != 1 {
+							panic("cannot build the refused entity")
+						}
+						pe[0].References["ex:r"] = nil // StoreEntities: "encountered nil ref, cannot store entity"
+						k := *ev.Poison
+						if k < 0 || k > len(ents) {
+							k = len(ents)
+						}
+						ents = append(ents[:k:k], append(pe, ents[k:]...)...)
+					}
 					if p := pipes[ev.N]; c.Pipeline && p != nil && p.Running() {
 						if len(ents) > 0 { // an empty page would end the run
 							err = p.Page(ents)
